@@ -52,6 +52,7 @@ type RunResult struct {
 	Bounds      map[string]int    `json:"bounds"`
 	SampleQ     []string          `json:"sample_queries,omitempty"`
 	Solver      string            `json:"solver"`
+	Fallbacks   int64             `json:"fallback_queries"`
 	Samples     []sym.PathSample  `json:"path_samples,omitempty"`
 	InitPoison  []string          `json:"init_poisoned,omitempty"`
 	Labels      []string          `json:"-"`
@@ -72,6 +73,7 @@ func cmdRun(args []string) int {
 	deadline := fs.Duration("deadline", 0, "overall deadline")
 	out := fs.String("out", "", "write JSON result here")
 	solver := fs.String("solver", "z3", "z3|z3new|cvc5")
+	solver2 := fs.String("fallback", "cvc5", "fallback solver on unknown (empty = none)")
 	trace := fs.Bool("trace", false, "trace instructions")
 	poll := fs.Int("poll-unwind", 0, "idle polling bound")
 	stopFirst := fs.Bool("stop-at-first", false, "stop at first violation")
@@ -112,6 +114,10 @@ func cmdRun(args []string) int {
 	pool := sym.NewPool(*solver, *qto)
 	defer pool.Close()
 	eng := sym.NewEngine(l.Prog, l.Fset, cfg, pool)
+	if *solver2 != "" && *solver2 != *solver {
+		eng.Pool2 = sym.NewPool(*solver2, *qto)
+		defer eng.Pool2.Close()
+	}
 	eng.RepoDir = *repo
 	for _, s := range stubs {
 		kv := strings.SplitN(s, "=", 2)
@@ -127,7 +133,7 @@ func cmdRun(args []string) int {
 		AssertQ: map[string]int64{"sat": eng.AssertQ[0], "unsat": eng.AssertQ[1], "unknown": eng.AssertQ[2]},
 		SolverQ: q, SolverS: st.Seconds(), SolverErrs: errs, WallS: time.Since(t0).Seconds(), LoadS: loadS,
 		Reached: eng.Reached, AssertSites: eng.AssertSites, Functions: eng.FnsExec, Intrinsics: eng.IntrHit,
-		Violations: eng.Violations, Unsupported: eng.Unsupported, Samples: eng.Samples, InitPoison: eng.InitPoison, SampleQ: eng.SampleQ, Solver: *solver,
+		Violations: eng.Violations, Unsupported: eng.Unsupported, Samples: eng.Samples, Fallbacks: eng.Fallbacks, InitPoison: eng.InitPoison, SampleQ: eng.SampleQ, Solver: *solver,
 		Bounds: map[string]int{"unwind": *unwind, "delays": *delays, "max_steps": *maxSteps}}
 	switch {
 	case eng.Aborted != "" && !(strings.HasPrefix(eng.Aborted, "violation found")):
